@@ -96,14 +96,23 @@ def setReordered (s : Stmt) : Bool :=
     go items
   s.updates.any fun | .set its => bad its | .merge _ oc om => bad oc || bad om | _ => false
 
+/-- C12-deleted-rel-props-resurrect: the statement creates a relationship identity that was deleted earlier and
+    whose property map is still stored (root cause in the storage engine: C06) -/
+def relResurrect (g : Graph) (names : List String) (s : Stmt) : Bool :=
+  match Update.runStmt A params g (g.nodes.foldl (fun m n => max m (n.id + 1)) 0) names s with
+  | .ok (ops, _, _, _) => ops.any fun
+    | .createEdge r => g.rels.any fun e => e.id == r && e.mult == 0 && !e.props.isEmpty
+    | _ => false
+  | .error _ => false
+
 def triggers (g : Graph) (names : List String) (s : Stmt) : List String :=
-  let _ := names
   (if mergeSet s then ["C12-merge-set-not-counted"] else []) ++
   (if nullBound A params g s then ["C12-null-bound-variable-recreated"] else []) ++
   (if repeatedTarget A params g s then ["C12-writes-decided-against-snapshot"] else []) ++
   (if labelCount s then ["C12-label-count-unconditional"] else []) ++
   (if mergePartial A params g s then ["C12-merge-partial-pattern-reuse"] else []) ++
   (if mergeStale s then ["C12-merge-stale-overlay"] else []) ++
-  (if setReordered s then ["C12-set-items-reordered"] else [])
+  (if setReordered s then ["C12-set-items-reordered"] else []) ++
+  (if relResurrect A params g names s then ["C12-deleted-rel-props-resurrect"] else [])
 
 end Nervus.Cy.UFindings
